@@ -376,7 +376,16 @@ func c10Flood(c *Ctx, ph c10Phase, binary, tag string, raceDir string) (obs []c1
 	}
 	wg.Wait()
 	if err := srv.Fence(); err != nil {
-		srvDied = true
+		// only a process that has exited has died; a fence that is not answered by a live process is either a server that
+		// makes no progress at all (blocked) or a loaded machine (inconclusive)
+		switch {
+		case srv.WaitDeath(5 * time.Second):
+			srvDied = true
+		case err == ErrBlocked:
+			crash = CrashInfo{Class: "blocked"}
+		default:
+			crash = CrashInfo{Class: "inconclusive", Detail: err.Error()}
+		}
 	}
 	srv.mu.Lock()
 	endClk := srv.clock + 1
@@ -619,6 +628,20 @@ func runC10(c *Ctx) {
 			}
 			if died {
 				c.Report("crash-under-flood|"+crash.Sig(), "server died under a message flood: "+crash.Detail, map[string]interface{}{"phase": ph})
+				continue
+			}
+			if crash.Class == "blocked" {
+				// alive, no CPU progress, no answer: a deadlock if the same flood blocks again
+				_, died2, crash2, _ := c10Flood(c, ph, bin, fmt.Sprintf("%sr%dagain", tag, rep), "")
+				if !died2 && crash2.Class == "blocked" {
+					c.Report("deadlock|under-flood", "the server stops answering under this message flood (process alive, no CPU progress); reproduced on a second flood", map[string]interface{}{"phase": ph})
+				} else {
+					c.Inconclusive("a flood ended with an unanswered fence once (server alive, no CPU progress) and not on the repetition")
+				}
+				continue
+			}
+			if crash.Class == "inconclusive" {
+				c.Inconclusive("the fence that closes a flood was not answered in time by a live server: " + crash.Detail)
 				continue
 			}
 			// history -> porcupine
